@@ -529,6 +529,11 @@ impl Datamodel for RFsmExpressionDatamodel {
         );
         event_props.insert(EVENT_VARIABLE_FIELD_DATA.to_string(), data_value);
 
+        // W3C 5.10: the fields of _event are read-only as well, not only the variable itself.
+        for field in event_props.values_mut() {
+            field.set_readonly(true);
+        }
+
         let mut ds = self.global_data.lock().unwrap();
         let event_name = EVENT_VARIABLE_NAME.to_string();
         // READONLY
